@@ -290,6 +290,20 @@ impl World {
                 }
                 _ => "bad-op".into(),
             },
+            ["ireserve", h, n] => match (self.idxs.get_mut(*h), n.parse::<usize>()) {
+                (Some(c), Ok(n)) => {
+                    if c.reserve(n) {
+                        "ok".into()
+                    } else {
+                        "panic".into()
+                    }
+                }
+                _ => "bad-op".into(),
+            },
+            ["icap", h] => match self.idxs.get(*h) {
+                Some(c) => c.caps(),
+                None => "bad-op".into(),
+            },
             ["iobs", h] => match self.idxs.get(*h) {
                 Some(c) => c.obs(),
                 None => "bad-op".into(),
